@@ -154,20 +154,37 @@ def lagrange_kernel(ctx):
         return
     v = FnView.get(P, f)
     nd = lagrange_accs(f, v)
+    fo = lagrange_fold(f, v)
     lps = [lp for lp in loop_report(P, f) if nd and nd[0][0] in lp["acc"] and nd[1][0] in lp["acc"]]
-    if nd is None or len(lps) != 1:
-        ctx.violation("H", f.key, "lagrange-kernel:shape", "the result is not N * invert(D) for two accumulators N, D of one loop", f.loc)
+    if fo is None and (nd is None or len(lps) != 1):
+        ctx.violation("H", f.key, "lagrange-kernel:shape", "the result is not N * invert(D) for two accumulators N, D of one traversal", f.loc)
         return
-    lp = lps[0]
-    (ln, cn), (ld, cd) = nd
     opt_x = lambda t: t == ("arg", 2) or (is_call(t, name="map") and "option::Option" in t[1] and t[2][0] == ("arg", 2))
     given = lambda fa: (("pass" if fa[2] else "fail") if fa[0] == "succ" and opt_x(fa[1]) else None)
-    item = next_item(lambda t: mentions(t, arg(1)))
+    if fo is not None:
+        # fold form: the per-element cases are the paths of the fold's closure; the state is the pair it is handed
+        from ..paths import closure_cases
+        fold_t, cn, cd = fo
+        item = lambda t: t == ITEM
+        n0, d0 = ("field", ACC, None, cn), ("field", ACC, None, cd)
+        sv_ = seq_view(fold_t[2][0])
+        init_ok = fold_t[2][1][0] == "agg" and fold_t[2][1][1] == "tuple" and all(is_call(x, name="one") for _, x in fold_t[2][1][4])
+        flt_ok = sv_ is not None and (not sv_["adaptors"] or (sv_["adaptors"] == {"filter": 1} and _filter_leaves_out_xi(P, sv_)))
+        ctx.check(sv_ is not None and sv_["base"] == ("arg", 1) and not sv_["drop_front"] and not sv_["drop_back"] and flt_ok
+                  and init_ok, "RED", f.key, "over-the-whole-set",
+                  "the Lagrange product must run over every element of x_set from (1, 1) (x_i itself may be filtered out, nothing else)", f.loc)
+        raw = closure_cases(P, fold_t[2][2], {2: ACC, 3: ITEM})
+        iter_paths = None if raw is None else [{"facts": c["facts"], "n": component(c["value"], cn), "d": component(c["value"], cd)} for c in raw]
+    else:
+        lp = lps[0]
+        (ln, cn), (ld, cd) = nd
+        item = next_item(lambda t: mentions(t, arg(1)))
+        n0, d0 = component(("loopvar", f.key, ln), cn), component(("loopvar", f.key, ld), cd)
+        iter_paths = "loop"
     xi = lambda t: strip_newtype_fields(t) == ("arg", 3) or (t[0] == "field" and strip_newtype_fields(t[1]) == ("arg", 3) and t[3] == "0")
     xj = lambda t: item(strip_newtype_fields(t)) or (t[0] == "field" and item(strip_newtype_fields(t[1])) and t[3] == "0")
     same = lambda fa: ("pass" if fa[4] else "fail") if (fa[0] == "cond" and fa[1] == "eq" and fa[3] is not None and
                                                         ((xi(fa[2]) and xj(fa[3])) or (xi(fa[3]) and xj(fa[2])))) else None
-    n0, d0 = component(("loopvar", f.key, ln), cn), component(("loopvar", f.key, ld), cd)
     leaves = [(lambda t: t == n0, ("scal", "n")), (lambda t: t == d0, ("scal", "d")),
               (lambda t: strip_newtype_fields(t) == ("some", ("arg", 2)) and t != ("some", ("arg", 2)), ("scal", "x")),
               (lambda t: strip_newtype_fields(t) == ("arg", 3) and t != ("arg", 3), ("scal", "xi")),
@@ -177,12 +194,15 @@ def lagrange_kernel(ctx):
     filtered = lagrange_filter(P, f, v)
     try:
         al = Alg(leaves)
-        for p in loop_transfer(P, f, v, lp, {ln, ld}):
-            if p["end"] != "back":
-                continue
+        if iter_paths is None:
+            raise Unanalysable("the fold's closure has no bounded set of paths")
+        if iter_paths == "loop":
+            iter_paths = [{"facts": p["facts"], "n": component(p["values"][ln], cn), "d": component(p["values"][ld], cd)}
+                          for p in loop_transfer(P, f, v, lp, {ln, ld}) if p["end"] == "back"]
+        for p in iter_paths:
             s_ = ({same(fa) for fa in p["facts"]} - {None}) or ({"fail"} if filtered else set())
             g_ = {given(fa) for fa in p["facts"]} - {None}
-            nv, dv = component(p["values"][ln], cn), component(p["values"][ld], cd)
+            nv, dv = p["n"], p["d"]
             if s_ == {"pass"}:
                 cases["same"].append((nv == n0, dv == d0))
             elif s_ == {"fail"} and g_ in ({"pass"}, {"fail"}):
@@ -248,22 +268,50 @@ def total_of(P, f, v, t):
     return None, None
 
 
-def lagrange_filter(P, f, v):
-    """the accumulator loop of compute_lagrange_coefficient runs over `x_set.iter().filter(|x_j| x_i != **x_j)`: x_i is left out by
-    the iterator instead of by a `continue` — True iff there is exactly one filter and that is its predicate"""
+def _filter_leaves_out_xi(P, sv):
+    """the traversal's only filter is `x_j != x_i`"""
     from ..guards import norm_cond
+    if len(sv["filters"]) != 1:
+        return False
+    body = closure_body(P, sv["filters"][0], {2: ITEM})
+    if body is None:
+        return False
+    kind, a, b, pos = norm_cond(body)
+    xi = lambda t: strip_newtype_fields(t) == ("arg", 3)
+    xj = lambda t: strip_newtype_fields(t) == ITEM
+    return kind == "eq" and not pos and b is not None and ((xi(a) and xj(b)) or (xi(b) and xj(a)))
+
+
+def lagrange_fold(f, v):
+    """the fold call both accumulators of compute_lagrange_coefficient come from, when the product is written
+    `x_set.iter()[.filter(..)].fold((one, one), |(num, den), x_j| ..)`: (fold term, numerator component, denominator component)"""
+    oks = ok_values(f, v)
+    if len(oks) != 1 or not is_call(oks[0], name="mul"):
+        return None
+    n, r = oks[0][2]
+    if r[0] != "ok":
+        return None
+    inv = r[1][1] if r[1][0] == "map_err" else r[1]
+    if not is_call(inv, name="invert"):
+        return None
+    d = inv[2][0]
+    if n[0] == "field" and d[0] == "field" and n[2] is None and d[2] is None and n[1] == d[1] and n[3] != d[3] and \
+            is_call(n[1], name="fold") and len(n[1][2]) == 3:
+        return n[1], n[3], d[3]
+    return None
+
+
+def lagrange_filter(P, f, v):
+    """the accumulator traversal of compute_lagrange_coefficient runs over `x_set.iter().filter(|x_j| x_i != **x_j)`: x_i is left
+    out by the iterator instead of by a `continue` — True iff there is exactly one filter and that is its predicate"""
+    fo = lagrange_fold(f, v)
+    if fo is not None:
+        sv = seq_view(fo[0][2][0])
+        return bool(sv and sv["filters"]) and _filter_leaves_out_xi(P, sv)
     for lp in loop_report(P, f, v):
         sv = seq_view(lp["iter_term"]) if lp["iter_term"] is not None else None
         if sv and sv["filters"]:
-            if len(sv["filters"]) != 1:
-                return False
-            body = closure_body(P, sv["filters"][0], {2: ITEM})
-            if body is None:
-                return False
-            kind, a, b, pos = norm_cond(body)
-            xi = lambda t: strip_newtype_fields(t) == ("arg", 3)
-            xj = lambda t: strip_newtype_fields(t) == ITEM
-            return kind == "eq" and not pos and b is not None and ((xi(a) and xj(b)) or (xi(b) and xj(a)))
+            return _filter_leaves_out_xi(P, sv)
     return False
 
 
@@ -382,7 +430,7 @@ def run(ctx):
         flt = lagrange_filter(P, f, v)
         lr = reductions(ctx, f.key, adaptors=({"filter": 1} if flt else {}), skip={l: same for l in locs}, min_loops=1,
                         labels={l: "num/den" for l in locs})
-        if lr:
+        if lr and lagrange_fold(f, v) is None:
             sv = seq_view(lr[0]["iter_term"]) if lr[0]["iter_term"] is not None else None
             ctx.check(sv is not None and sv["base"] == ("arg", 1) and not sv["drop_front"] and not sv["drop_back"] and
                       (not sv["filters"] or flt), "RED", f.key, "over-the-whole-set",
